@@ -83,6 +83,25 @@ class FuncLowerer:
             p = p.get('_parent')
         return p
 
+    def _init_capture_var(self, rec, field, taken):
+        """id of the init-capture variable stored in `field`: a VarDecl referenced in the call operator that is declared nowhere
+        in the AST and has the field's type; None unless exactly one candidate is left"""
+        want = field.get('type', {}).get('desugaredQualType') or field.get('type', {}).get('qualType')
+        cands = {}
+        def walk(n):
+            if n.get('kind') == 'DeclRefExpr':
+                rd = n.get('referencedDecl', {})
+                if rd.get('kind') == 'VarDecl' and rd.get('id') not in self.ix.byid and rd.get('id') not in taken:
+                    t = rd.get('type', {})
+                    if (t.get('desugaredQualType') or t.get('qualType')) == want:
+                        cands[rd['id']] = rd.get('name')
+            for c in n.get('inner', []):
+                walk(c)
+        for c in rec.get('inner', []):
+            if c.get('kind') == 'CXXMethodDecl' and c.get('name') == 'operator()':
+                walk(c)
+        return list(cands)[0] if len(cands) == 1 else None
+
     def closure_map(self, rec):
         """captured variable id (or 'this') -> C expression over the closure object `self`"""
         u = self.u
@@ -108,7 +127,11 @@ class FuncLowerer:
             elif core.get('kind') == 'DeclRefExpr':
                 m[core['referencedDecl']['id']] = acc
             else:
-                abort('lambda capture initialiser of kind %s' % core.get('kind'), ini)
+                # init-capture (name = expr): the body refers to a VarDecl that the AST only mentions by id and name
+                vid = self._init_capture_var(rec, f, m)
+                if vid is None:
+                    abort('lambda capture initialiser of kind %s' % core.get('kind'), ini)
+                m[vid] = acc
         return m
 
     def this_type(self):
@@ -982,6 +1005,18 @@ class FuncLowerer:
 
     def e_CXXRewrittenBinaryOperator(self, e):
         # C++20: a != b rewritten by the compiler as !(a == b) etc.; the child is the rewritten expression
+        r = self.strip_wrappers(e['inner'][0])
+        if r.get('kind') == 'CXXOperatorCallExpr' and len(r['inner']) == 3:
+            # (a <=> b) OP 0 on two pointer-like iterators (__normal_iterator, lowered to the pointer it wraps): a OP b
+            cd = self.callee_decl(r['inner'][0])
+            op = cd[0].get('name', '')[len('operator'):] if cd else ''
+            sp = self.strip_wrappers(r['inner'][1])
+            if op in ('<', '>', '<=', '>=') and sp.get('kind') == 'CXXOperatorCallExpr' and len(sp['inner']) == 3:
+                cd2 = self.callee_decl(sp['inner'][0])
+                a, b = sp['inner'][1], sp['inner'][2]
+                ta, tb = self.u.strip_ref(self.u.type_of(a)), self.u.strip_ref(self.u.type_of(b))
+                if cd2 and cd2[0].get('name') == 'operator<=>' and cd2[1] is None and ta[0] == 'ptr' and tb[0] == 'ptr':
+                    return '(%s %s %s)' % (self.expr(a), op, self.expr(b))
         return self.expr(e['inner'][0])
 
     def e_ExprWithCleanups(self, e):
@@ -1808,6 +1843,18 @@ class FuncLowerer:
         a0t = u.strip_ref(u.type_of(args[0])) if args else None
         if a0t is not None and a0t[0] == 'atomic':
             return self.atomic_operator(name, args, e, a0t)
+        if decl is None and a0t is not None and a0t[0] == 'ptr' and '__normal_iterator<' in (args[0].get('type', {}).get('desugaredQualType') or args[0].get('type', {}).get('qualType', '')):
+            # __gnu_cxx::__normal_iterator<T*, C>: lowered to the pointer it wraps (cxx2c.resolve); its operators are the pointer's
+            opsym = name[len('operator'):]
+            if len(args) == 1 and opsym in ('*', '++', '--'):
+                return '(%s%s)' % (opsym, self.expr(args[0]))
+            if len(args) == 2 and opsym in ('++', '--'):
+                return '(%s%s)' % (self.expr(args[0]), opsym)
+            if len(args) == 2 and opsym in ('+', '-', '<', '>', '<=', '>=', '==', '!=', '+=', '-=', '='):
+                return '(%s %s %s)' % (self.expr(args[0]), opsym, self.expr(args[1]))
+            if len(args) == 2 and opsym == '[]':
+                return '(%s[%s])' % (self.expr(args[0]), self.expr(args[1]))
+            abort('iterator operator %s' % name, e)
         if decl is None and a0t is not None:
             from cxx2c import PREDEFINED_STRUCTS
             opsym = name[len('operator'):]
